@@ -193,17 +193,32 @@ func rootOf(addr ssa.Value) (root ssa.Value, firstField *ssa.FieldAddr) {
 	}
 }
 
-func isLocalFresh(v ssa.Value) bool {
+// isLocalFresh: v is an object allocated by this very code region (scope == nil: anywhere in
+// the function; otherwise the allocating instruction must lie in a block accepted by scope).
+// Writes to such an object are "allocation only" for an observer that starts before the region.
+func isLocalFresh(v ssa.Value, scope func(*ssa.BasicBlock) bool) bool {
 	switch x := v.(type) {
 	case *ssa.Alloc, *ssa.MakeSlice, *ssa.MakeMap:
-		return true
+		if scope == nil {
+			return true
+		}
+		if in, ok := v.(ssa.Instruction); ok && in.Block() != nil {
+			return scope(in.Block())
+		}
+		return false
 	case *ssa.Slice:
-		return isLocalFresh(x.X)
+		return isLocalFresh(x.X, scope)
 	}
 	return false
 }
 
 func (w *World) instrMods(in ssa.Instruction, m map[string]bool) {
+	w.instrModsIn(in, m, nil)
+}
+
+// instrModsIn: as instrMods, but an object counts as fresh only when allocated inside scope
+// (used for loop bodies: an object allocated before the loop and written in it is a write).
+func (w *World) instrModsIn(in ssa.Instruction, m map[string]bool, scope func(*ssa.BasicBlock) bool) {
 	d := w.scratch()
 	switch in := in.(type) {
 	case *ssa.Store:
@@ -212,7 +227,7 @@ func (w *World) instrMods(in ssa.Instruction, m map[string]bool) {
 		case *ssa.Alloc:
 			if ff != nil && r.Heap {
 				// fresh heap object: allocation only
-				w.fieldMod(ff, m, false)
+				w.fieldMod(ff, m, !isLocalFresh(r, scope))
 			}
 			return
 		case *ssa.Global:
@@ -229,7 +244,7 @@ func (w *World) instrMods(in ssa.Instruction, m map[string]bool) {
 				}
 			}
 			if es != "" {
-				addMod(m, "S$"+es, !isLocalFresh(r.X))
+				addMod(m, "S$"+es, !isLocalFresh(r.X, scope))
 			}
 			return
 		case *ssa.FreeVar:
@@ -286,7 +301,7 @@ func (w *World) instrMods(in ssa.Instruction, m map[string]bool) {
 			return
 		}
 		ks, vs := w.sortOf(mt.Key(), d), w.sortOf(mt.Elem(), d)
-		wr := !isLocalFresh(in.Map)
+		wr := !isLocalFresh(in.Map, scope)
 		addMod(m, "M$has$"+ks+"$"+vs, wr)
 		addMod(m, "M$val$"+ks+"$"+vs, wr)
 	case *ssa.Convert:
@@ -306,7 +321,7 @@ func (w *World) instrMods(in ssa.Instruction, m map[string]bool) {
 				}
 			case "copy":
 				if st, ok := types.Unalias(c.Args[0].Type()).Underlying().(*types.Slice); ok {
-					addMod(m, "S$"+w.sortOf(st.Elem(), d), !isLocalFresh(c.Args[0]))
+					addMod(m, "S$"+w.sortOf(st.Elem(), d), !isLocalFresh(c.Args[0], scope))
 				} else {
 					addMod(m, "*", true)
 				}
